@@ -54,7 +54,9 @@ GSpec == GInit /\ [][GNext]_gvars
 \* the design model stops before it (a replace intent deliberately decouples the device from the intents),
 \* IntentsTrace.TxReplace judges it
 ReplTail(dummy) == LET i == RandomElement({x \in IntentSet : x.kind = "set"}) IN
-                   [upd |-> i.upd, dry |-> RandomElement(BOOLEAN), end |-> RandomElement({"confirm", "cancel", "wait", "none"})]
+                   [upd |-> i.upd, dry |-> RandomElement(BOOLEAN), end |-> RandomElement({"confirm", "cancel", "wait", "none"}),
+                    \* sometimes an ordinary intent travels with the replace intent
+                    extra |-> IF RandomElement(1..4) = 1 THEN {RandomElement(IntentSet)} ELSE {}]
 Emit == (Idle /\ Len(hist.steps) > 0) =>
            JsonSerialize(OutDir \o "/b" \o ToString(TLCGet("stats").traces) \o ".json",
                          [init |-> hist.init, steps |-> hist.steps, answers |-> answers, repltail |-> ReplTail(0)])
